@@ -255,6 +255,8 @@ SIG = {
     # with hash160 only (what self.hash160 is set to), PublicKey.get_address (the stored hex string of the P2PKH address object)
     'is_hash160_valid': ('keys.py', 'Address._is_hash160_valid', [('hash160', 'List Char')], 'Bool'),
     'address_init_hash160': ('keys.py', 'Address.__init__', [('hash160', 'List Char')], 'List Char'),
+    'address_init_script': ('keys.py', 'Address.__init__',
+                            [('hashlib_sha256', 'Bytes → Bytes'), ('OPS', 'List (String × Bytes)'), ('script', 'List Py.PyTok')], 'Bytes'),
     'pubkey_get_address': ('keys.py', 'PublicKey.get_address',
                            [('hashlib_sha256', 'Bytes → Bytes'), ('self_key_string', 'Bytes'), ('compressed', 'Bool')], 'List Char'),
     # the public signing methods: digest of the transaction object (its fields as parameters tx_*), then the private signer
@@ -1499,6 +1501,9 @@ class Tr:
                 t = args[0].value.id
                 comps = f'{t}.1 {t}.2.1 {t}.2.2.1 {t}.2.2.2.1 {t}.2.2.2.2'
                 return s.eff(f'rmd_compress {comps} {s.e(args[1])}')
+            if (f.id == '_script_to_hash160' and s.name == 'address_init_script' and len(args) == 1 and not kw and isinstance(args[0], ast.Name)
+                    and args[0].id in s.toklists):       # (self.… inside __init__ is rewritten to a plain name)
+                return s.eff(f'address_script_to_hash160 hashlib_sha256 OPS {args[0].id}')
             if f.id in CALLS: return s.eff(f'{CALLS[f.id]} ' + ' '.join(s.e(a) for a in args))
             if f.id == 'isinstance' and len(args) == 2 and isinstance(args[0], ast.Name) and args[0].id in s.tokvars \
                     and isinstance(args[1], ast.Name) and args[1].id == 'int':
@@ -2017,7 +2022,7 @@ class Tr:
             return out
         s.fail(st, 'statement')
 
-    def ctor_branch(s, node, param, others, field):
+    def ctor_branch(s, node, param, others, field, truthy=False):
         """A constructor called with `param` only — the parameters `others` keep their default None.  The body must be one
         `if param: … elif <other>: … … else: raise …` chain; the `elif`s test parameters that are None, so the translation keeps the first
         branch and the final raise.  `self.<field> = E` as the last thing a path does becomes `return E`."""
@@ -2028,9 +2033,23 @@ class Tr:
         for k in others:
             if not (k in defaults and isinstance(defaults[k], ast.Constant) and defaults[k].value is None):
                 s.fail(node, f'constructor parameter {k} no longer defaults to None')
-        if not (len(body) == 1 and isinstance(body[0], ast.If) and isinstance(body[0].test, ast.Name) and body[0].test.id == param):
+        if not (len(body) == 1 and isinstance(body[0], ast.If) and isinstance(body[0].test, ast.Name)):
             s.fail(node, f'constructor shape: if {param}')
-        top = body[0]; cur = top
+        top = body[0]
+        while top.test.id in others and len(top.orelse) == 1 and isinstance(top.orelse[0], ast.If) and isinstance(top.orelse[0].test, ast.Name):
+            top = top.orelse[0]          # leading arms test parameters that are None: not taken
+        if top.test.id != param: s.fail(node, f'constructor shape: if {param}')
+        if truthy:
+            # an object of a class without __bool__ / __len__ is truthy — checked on the Script class as it is now
+            st_ = ast.parse(open(f'{REPO}/bitcoinutils/script.py').read())
+            for c_ in st_.body:
+                if isinstance(c_, ast.ClassDef) and c_.name == 'Script':
+                    if c_.bases or any(isinstance(m_, ast.FunctionDef) and m_.name in ('__bool__', '__len__') for m_ in c_.body):
+                        s.fail(node, 'Script defines its own truthiness (or has a base class)')
+                    break
+            else: s.fail(node, 'class Script not found')
+            top.test = ast.copy_location(ast.Constant(value=True), top.test)
+        cur = top
         while True:
             if len(cur.orelse) == 1 and isinstance(cur.orelse[0], ast.If) and isinstance(cur.orelse[0].test, ast.Name) \
                     and cur.orelse[0].test.id in others:
@@ -2349,6 +2368,8 @@ class Tr:
             node = s.ctor_branch(node, 'hash160', ['address', 'script'], 'hash160')
         if s.name == 'segwit_init':
             node = s.ctor_segwit(node)
+        if s.name == 'address_init_script':
+            node = s.ctor_branch(node, 'script', ['hash160', 'address'], 'hash160', truthy=True)
         strpre = []
         if s.name in STRFUNS:
             for nm, T_ in STRFUNS[s.name].items():
